@@ -186,7 +186,8 @@ def c11(ctx):
 def c18(ctx):
     quick = ctx.tier == "quick"
     out = ctx.path("eval.ndjson")
-    summ = harness(["record-eval", out, "--seed", ctx.seed, "--random", 1500 if quick else 20000, "--games", 8 if quick else 100])
+    eseeds = write_ndjson(ctx.path("eval_seeds.ndjson"), seed_records(load_seeds(), both_colours=True))
+    summ = harness(["record-eval", out, "--seed", ctx.seed, "--random", 1500 if quick else 20000, "--games", 8 if quick else 100, "--seeds", eseeds])
     bad, skipped, total = engines.validate_records(ctx, out, shards=4, workers=4, label="eval")
     # C18 speaks of symmetry, bounds, mate ordering and stalemate = 0; the rest of what these records
     # check (leaf score = static score on ordinary positions, board rendering) is spec growth
